@@ -27,6 +27,8 @@ checks = {
          "boundary vectors rendered by the real renderers and judged by TLC (Output/Human specs, exact arithmetic)", "4-C11"),
  "C12": (MC, "Human.tla states the rounding rules in exact BigNat arithmetic (largest prefix, decimals from the whole part, half-unit bound with both neighbours admissible on ties, >=3 significant digits, <=5 characters, monotone magnitude); HumanMC lets TLC generate the neighbourhoods of every rounding/precision/prefix boundary and checks satisfiability; every value (plus stratified random 64-bit values) is rendered by the real Humaner.FormatNumber and judged by TLC (HumanJudge), neighbours for monotonicity.",
          "TLC-generated boundary values rendered by the real FormatNumber and judged by TLC in exact arithmetic", "4-C12"),
+ "C13": ("exploration", "Every repository flavour (plain, replace refs of commits/trees/blobs, grafts adding/dropping/redirecting parents, shallow marker) is addressed in 10 ways (top, subdirectory, inside .git, gitfile, GIT_DIR absolute/relative, git -C dir sizer, linked worktree and subdirectory, bare copy): byte-identical stdout across modes, equal to the ObjGraph oracle on the objects as stored (TLC, ScanJudge), and the fake git's log shows --no-replace-objects, GIT_GRAFT_FILE=/dev/null and the real GIT_DIR on every invocation; shallow is refused. CliRun.tla carries the corresponding invariants at design level only, so the claim is exploration of generated scenarios.",
+         "addressing x flavour scenarios through the real binary under a logging fake git, reports judged by TLC against the stored-object oracle", "4-C13"),
  "C14": (MC, "Cli.tla defines the effective settings as a fold over the argument list with gitconfig consulted iff no option of the family is given, and the canonical command line; TLC enumerates argument sequences x gitconfig states per family, checks the laws, and exports each scenario with its canonical form or Error; each is run on the real binary as (gitconfig, args) and as canonical command line without gitconfig: byte-identical stdout, same progress, or failure exactly when the spec says so; documented equivalent spellings likewise.",
          "TLC-enumerated option/gitconfig scenarios run as paired executions of the real binary", "4-C14"),
  "C15": (MC, "Config.tla gives the byte grammar of `git config --list -z`, the reference NUL-first reader and the reader as coded; TLC checks on all small listings (value-less keys, values with LF, look-alike sections) that the reader is faithful and foreign entries never leak; every listing is served by a fake git to the real Repository.GetConfig and compared; CLI scenarios with refgroups over all config scopes are judged by TLC (RefsJudge) from git's own listing.",
@@ -35,12 +37,12 @@ checks = {
          "footnote numbering judged by TLC on rendered sharing patterns and on parsed tables of odd-name repositories", "4-C19"),
  "C16": (MC, "Parsers.tla gives byte-level reference parsers (trees, commits, tags, cat-file headers, for-each-ref lines); ParsersMC enumerates well-formed objects from small vocabularies, every truncation and token-level corruptions, checks round-trip and header-only extraction on the specification, and exports every input with the reference result; all inputs go through the real parsers under recover().",
          "TLC-enumerated structured inputs replayed into the real parsers and compared with TLA+ reference parsers", "4-C16"),
+ "C17": ("exploration", "CliRun!ReadOnly is an action property checked by TLC and the fake git's log is restricted to the read-only commands of the specification; every generated repository layout is hashed file by file before and after each run; each scenario is repeated on a -race build with GOMAXPROCS in {1,2,4,16} under CPU load (identical stdout, no race report) and the hook traces of such runs are validated against Scan by TLC. Data races proper are outside what a TLA+ specification can express: they are monitored on the sampled schedules only.",
+         "repeated -race runs with digests and a logging fake git; traces validated against Scan by TLC", "4-C17"),
  "C18": (MC, "Meter.tla models worker, one ticker goroutine per Start, the lock and the ticker-identity test; TLC explores all interleavings (invariants + termination; refuted when the identity test is removed). The real meter is driven with seeded random periods/delays on a -race build, every Write is recorded and the frame sequences are judged (MeterJudge) and validated as behaviours of the model with inferred silent steps (MeterTrace). CLI: identical stdout with and without --progress, final counts = census judged by TLC.",
          "TLC model checking of the meter + TLC trace validation of timing-fuzzed real meter runs + TLC-judged CLI progress counts", "4-C18"),
 }
 pending = {
- "C13": "check under construction in this session",
- "C17": "check under construction in this session",
 
 }
 import os, sys
